@@ -267,11 +267,20 @@ def _date_ref(y, m, d):
     if d < 1 or d > _dim(y, m):
         return "N", "calendar_day"
     if y == 0:
-        return "U", "year_0000"
+        # FIX 4.4: YYYY = 0000-9999 (stated for every date type); only Feb 29 of year 0000 is left open
+        return ("U", "year_0000_feb29") if (m == 2 and d == 29) else ("M", "year_0000")
     return "M", "date"
 
 
-def _time_ref(h, mi, sec):
+# days that really ended with 23:59:60 UTC (IERS Bulletin C, 1972-2016)
+LEAP_SECOND_DATES = frozenset(
+    [(y, 6, 30) for y in (1972, 1981, 1982, 1983, 1985, 1992, 1993, 1994, 1997, 2012, 2015)]
+    + [(y, 12, 31) for y in (1972, 1973, 1974, 1975, 1976, 1977, 1978, 1979, 1987, 1989, 1990, 1995, 1998, 2005,
+                             2008, 2016)])
+
+
+def _time_ref(h, mi, sec, date=None):
+    """date: None for UTCTimeOnly, (y, m, d) for UTCTimestamp."""
     if h > 23:
         return "N", "calendar_hour"
     if mi > 59:
@@ -279,7 +288,10 @@ def _time_ref(h, mi, sec):
     if sec > 60:
         return "N", "calendar_second"
     if sec == 60:
-        return "U", "leap_second"
+        # FIX 4.4: SS = 00-60 (60 only if UTC leap second)
+        if h == 23 and mi == 59 and (date is None or date in LEAP_SECOND_DATES):
+            return "M", "leap_second"
+        return "U", "second_60_not_a_leap_second"
     return "M", "time"
 
 
@@ -317,7 +329,9 @@ def ref_temporal(dtype, s):
                 return base
             if s[7] not in "12345":
                 return "N", "week_code"
-            return base if base[0] == "U" else ("M", "week")
+            if base[0] == "U" or base[1] == "year_0000":
+                return base
+            return "M", "week"
         return "N", _layout_cause(s, "w")
     # types with a time part and an optional fraction
     if dtype == "UTCTIMEONLY":
@@ -333,18 +347,25 @@ def ref_temporal(dtype, s):
         if not _digits(frac):
             return "N", _layout_cause(s, seps)
     t = base[-8:]
-    tv = _time_ref(_ival(t[0:2]), _ival(t[3:5]), _ival(t[6:8]))
     if dtype == "UTCTIMESTAMP":
-        dv = _date_ref(_ival(base[0:4]), _ival(base[4:6]), _ival(base[6:8]))
+        ymd = (_ival(base[0:4]), _ival(base[4:6]), _ival(base[6:8]))
+        dv = _date_ref(*ymd)
+        tv = _time_ref(_ival(t[0:2]), _ival(t[3:5]), _ival(t[6:8]), ymd)
         v = _worst(dv, tv)
+        special = [x[1] for x in (dv, tv) if x[1] in ("year_0000", "leap_second")]
     else:
-        v = tv
+        v = _time_ref(_ival(t[0:2]), _ival(t[3:5]), _ival(t[6:8]))
+        special = [v[1]] if v[1] == "leap_second" else []
     if v[0] == "N":
         return v
     if dot and len(frac) != 3:
-        return "U", "fraction_not_3_digits"  # FIX 4.4: sss; a test pins 6 digits accepted
+        # FIX 4.4 knows whole seconds or exactly .sss; 6 digits is its own class because
+        # test_field_type_validation__utctimestamp/__utctimeonly assert that ".123456" is accepted
+        return "N", ("fraction_6_digits" if len(frac) == 6 else "fraction_width")
     if v[0] == "U":
         return v
+    if special:
+        return "M", special[0]
     return "M", ("time_millis" if dot else "time_seconds")
 
 
@@ -611,7 +632,7 @@ def time_calendar(quick):
 
 
 def ts_calendar(quick):
-    dates = ["20230921", "20240229", "20230229", "19000229", "20000229", "20231301", "20230001", "20230932",
+    dates = ["20230921", "20161231", "19720630", "20231231", "20240229", "20230229", "19000229", "20000229", "20231301", "20230001", "20230932",
              "20230900", "20230431", "00010101", "99991231", "00000101", "2023921", "202391", "2023 921",
              "202309 1", "230921", "2023-09-21", "2023/09/21"]
     times = []
@@ -873,6 +894,10 @@ def _work(item):
                     v["count"] = 1
                     v["_key"] = (len(s), res["calls"])
                     res["viol"][sig] = v
+                elif len(s) < cur["_key"][0]:  # keep the shortest input per signature
+                    v["count"] = cur["count"] + 1
+                    v["_key"] = (len(s), res["calls"])
+                    res["viol"][sig] = v
                 else:
                     cur["count"] += 1
                 k = (dtype if not enums else "enum:" + dtype, sig)
@@ -975,7 +1000,7 @@ def run(ctx):
         "R9 leaves unconstrained: leading zeros, -0, bare decimal point (.5 / 5.), LENGTH other than plain positive "
         "ints, non-ASCII DATA, '=' inside STRING/CHAR (FIX allows it, test_field_type_validation__string pins the "
         "rejection), blank/control/non-ASCII characters in text, short or non-uppercase currency/country/exchange "
-        "codes, second 60, year 0000, time fractions of other than 3 digits (a test pins 6 accepted), MonthYear "
+        "codes, second 60 other than 23:59:60 (on a real leap-second day for timestamps), Feb 29 of year 0000, MonthYear "
         "day 29-31 beyond the month length, blank separated lists for enumerated MultipleValueString fields, "
         "leading-zero spellings of numeric enumerators",
         "one representative field stands for its datatype in the exhaustive part; all other fields get the probe list",
